@@ -256,3 +256,32 @@ def check_slices(built, expected):
             want = tuple((int(lo[a]), int(hi[a])) for a in range(3))
             if got != want:
                 raise RuntimeError(f"detector {d.name} placed at {got}, case asked for {want}")
+
+
+# ----------------------------------------------------------------------------------------------------------------
+# driving update_detector_states
+# ----------------------------------------------------------------------------------------------------------------
+def jit_update(built, inverse=False):
+    """fn(time_step:int, arrays, H_prev) -> arrays, one jit compilation per scene (the production call path traces
+    the update as well; eager dispatch compiles every primitive for the per-case shapes and is 2-3x slower)."""
+    import jax
+    import jax.numpy as jnp
+    from fdtdx.fdtd.update import update_detector_states
+
+    objects, config = built.objects, built.config
+    fn = jax.jit(lambda ts, arr, hp: update_detector_states(ts, arr, objects, config, hp, inverse))
+
+    def call(t, arrays, H_prev):
+        return fn(jnp.asarray(int(t), dtype=jnp.int32), arrays, jnp.asarray(H_prev, dtype=arrays.fields.H.dtype))
+
+    return call
+
+
+def states(arrays):
+    return {n: {k: np.asarray(v) for k, v in s.items()} for n, s in arrays.detector_states.items()}
+
+
+def lane_dtypes(lane):
+    import jax.numpy as jnp
+
+    return (jnp.float64, jnp.complex128) if lane == "f64" else (jnp.float32, jnp.complex64)
